@@ -336,8 +336,9 @@ def source_obligations(prop, mod, work):
     turned into Lean obligations (`example : <model constant> = <value read from the code>`),
     checked by the Lean kernel.  `mod.SOURCE_CONSTANTS` maps a Lean term to a Python expression
     evaluated in a worker (the real modules imported from the working tree)."""
-    consts = getattr(mod, 'SOURCE_CONSTANTS', None)
-    if not consts:
+    consts = getattr(mod, 'SOURCE_CONSTANTS', None) or {}
+    sites = getattr(mod, 'SOURCE_SITES', None) or []
+    if not consts and not sites:
         return None
     script = work.path('consts.py')
     with open(script, 'w') as f:
@@ -354,7 +355,7 @@ def source_obligations(prop, mod, work):
         if line.startswith('CONSTS '):
             vals = json.loads(line[7:])
     info, problems = {}, []
-    if not vals:
+    if consts and not vals:
         problems.append('could not read constants from the source: %s' % p.stderr[-400:])
     lean_file = work.path('Generated_%s.lean' % prop)
     with open(lean_file, 'w') as f:
@@ -366,10 +367,26 @@ def source_obligations(prop, mod, work):
                 f.write('example : (%s) = (%d) := by decide\n' % (term, v))
             else:
                 problems.append('%s: %s' % (term, v))
+        # definitions translated from the current source, and their hand-written obligations
+        if sites:
+            import pytrans
+            f.write('namespace Generated\n')
+            for site in sites:
+                try:
+                    d = pytrans.translate(site, REPO)
+                    info['translated:' + site['name']] = d.split(':=', 1)[1].strip()[:300]
+                    f.write(d)
+                    f.write(site['obligation'] + '\n')
+                except pytrans.Untranslatable as ex:
+                    problems.append('source site %s (%s %s) is no longer translatable: %s'
+                                    % (site['name'], site['file'], site['func'], ex))
+                except Exception as ex:
+                    problems.append('source site %s: %s' % (site['name'], ex))
+            f.write('end Generated\n')
     q = subprocess.run(['lake', 'env', 'lean', lean_file], cwd=LEAN, stdout=subprocess.PIPE,
                        stderr=subprocess.STDOUT, text=True, timeout=600)
     if q.returncode != 0:
-        problems.append('model constant differs from the source: %s' % q.stdout.strip()[:600])
+        problems.append('model differs from the source (generated obligation failed): %s' % q.stdout.strip()[:900])
     return {'info': info, 'problems': problems}
 
 
